@@ -13,7 +13,10 @@ from traffic_weaver import Weaver
 PROPERTY = "C12"
 LEVEL = "exploration"
 RULE = ("Hypothesis builds a series of 2..60 samples (uniform: integer / hour / float-step grids; non-uniform: dyadic, "
-        "motif, log-uniform gaps, large offset; abscissae as float64, int64 or Python list, values as float or int; "
+        "motif, log-uniform gaps, large offset; abscissae as float64, int64 or Python list, values as float or int; a "
+        "fifth of the series handed over as strided ndarray views (class container:strided-view: column of a "
+        "C-ordered (N,2) table, row of its transpose, every second element of a buffer, x and y alike, and "
+        "Weaver.from_2d_array(table) as construction path); "
         "about a third of the series in a narrow dtype - int8/int16/int32/uint8/uint16 abscissae ending just below "
         "the dtype's maximum or spanning its whole range, float32/float16 abscissae on the ulp lattice just below a "
         "power of two or below the dtype's maximum, values int8..uint16/float32/float16 at the dtype's limits - so "
@@ -80,7 +83,7 @@ def bits(a):
 
 
 def first_diff(a, b):
-    return int(np.nonzero(bits(a) != bits(b))[0][0])
+    return int(np.nonzero(np.asarray(a, dtype=np.float64) != np.asarray(b, dtype=np.float64))[0][0])
 
 
 def as_float_array(name, a, length):
@@ -111,11 +114,12 @@ def check_extension(name, x, y, r, res):
     X = as_float_array(f"{name}: x", res[0], r * n)
     Y = as_float_array(f"{name}: y", res[1], r * n)
     want_y = np.array(yf.tolist() * r, dtype=np.float64)
-    if not np.array_equal(bits(Y), bits(want_y)):
+    # exact values, not bit patterns: -0.0 and 0.0 are the same number (all arrays are finite here)
+    if not np.array_equal(Y, want_y):
         k = first_diff(Y, want_y)
         raise Violation(f"{name}: values are not the input tiled {r} times: y[{k}] = {Y[k]!r}, expected {want_y[k]!r} "
                         f"(copy {k // n}, sample {k % n})")
-    if not np.array_equal(bits(X[:n]), bits(xf)):
+    if not np.array_equal(X[:n], xf):
         k = first_diff(X[:n], xf)
         raise Violation(f"{name}: first copy differs from the input: x[{k}] = {X[k]!r}, input {xf[k]!r}")
     d = np.diff(X)
@@ -151,10 +155,10 @@ def check_same(name, x, y, res):
     Y = as_float_array(f"{name}: y", res[1], n)
     xf = np.array([float(v) for v in x], dtype=np.float64)
     yf = np.array([float(v) for v in y], dtype=np.float64)
-    if not np.array_equal(bits(X), bits(xf)):
+    if not np.array_equal(X, xf):
         k = first_diff(X, xf)
         raise Violation(f"{name}: x[{k}] = {X[k]!r}, input {xf[k]!r}")
-    if not np.array_equal(bits(Y), bits(yf)):
+    if not np.array_equal(Y, yf):
         k = first_diff(Y, yf)
         raise Violation(f"{name}: y[{k}] = {Y[k]!r}, input {yf[k]!r}")
 
@@ -257,8 +261,22 @@ def special_series(draw, ctx):
     return dict(x=x, y=draw(ys(n))["y"], xkind=kind, ykind="float64", xint=False, as_list=draw(st.integers(0, 4)) == 0)
 
 
+CONTAINERS = ["column", "column", "transpose-row", "every-second", "every-second", "from_2d_array", "from_2d_array"]
+
+
 @st.composite
 def base_series(draw, ctx):
+    """a series plus the container it is handed over in: list, fresh ndarray, or (mass ~1/5) a strided VIEW - a column
+    of a C-ordered (N, 2) table, a row of its transpose (`x, y = data.T`), every second element of a longer buffer,
+    or (Weaver-level) the table itself through Weaver.from_2d_array"""
+    s = draw(plain_series(ctx))
+    if draw(st.integers(0, 4)) == 0:
+        s = dict(s, as_list=False, container=draw(st.sampled_from(CONTAINERS)))
+    return s
+
+
+@st.composite
+def plain_series(draw, ctx):
     which = draw(st.integers(0, 5))
     if which <= 1:
         return draw(narrow_series())
@@ -280,11 +298,48 @@ def narrow_array(values, dtype):
     return a
 
 
+def table_of(case, kx="x", ky="y"):
+    """C-ordered float64 (N, 2) table [x, y] if both columns are exactly representable in it, else None"""
+    x, y = case[kx], case[ky]
+    if case.get(kx + "dtype") or case.get(ky + "dtype"):
+        return None
+    t = np.empty((len(x), 2), dtype=np.float64)
+    t[:, 0], t[:, 1] = x, y
+    if t[:, 0].tolist() != [float(v) for v in x] or t[:, 1].tolist() != [float(v) for v in y]:
+        return None
+    return t
+
+
+def _strided(a, how, col):
+    """the same values as the contiguous 1-D array `a`, as a view with a stride of two items"""
+    if how == "every-second":
+        buf = np.empty(2 * len(a), dtype=a.dtype)
+        buf[col::2] = a
+        buf[1 - col::2] = a[::-1]          # foreign numbers in between: decreasing, other spacing
+        v = buf[col::2]
+    else:
+        t = np.empty((len(a), 2), dtype=a.dtype)
+        t[:, col] = a
+        t[:, 1 - col] = a[::-1]
+        v = t[:, col] if how != "transpose-row" else t.T[col]
+    if v.strides[0] != 2 * a.itemsize or v.tolist() != a.tolist():
+        raise RuntimeError("strided view construction failed")
+    return v
+
+
 def inputs(case, kx="x", ky="y"):
     x, y = case[kx], case[ky]
     if case.get("as_list"):
         return list(x), list(y)
-    return narrow_array(x, case.get(kx + "dtype")), narrow_array(y, case.get(ky + "dtype"))
+    xa, ya = narrow_array(x, case.get(kx + "dtype")), narrow_array(y, case.get(ky + "dtype"))
+    how = case.get("container") if kx == "x" else None
+    if how:
+        t = table_of(case, kx, ky) if how in ("column", "transpose-row", "from_2d_array") else None
+        if t is not None:                       # one shared table, as np.loadtxt / load_dataset return it
+            return (t[:, 0], t[:, 1]) if how != "transpose-row" else tuple(t.T)
+        how = "column" if how == "from_2d_array" else how
+        return _strided(xa, how, 0), _strided(ya, how, 1)
+    return xa, ya
 
 
 def index_construction(draw, s):
@@ -299,6 +354,8 @@ def index_construction(draw, s):
 def make_weaver(case):
     xa, ya = inputs(case)
     if not case.get("x_none"):
+        if case.get("container") == "from_2d_array" and table_of(case) is not None:
+            return Weaver.from_2d_array(table_of(case))
         return Weaver(xa, ya)
     w = Weaver(None, ya)
     got = w.x.tolist() if isinstance(w.x, np.ndarray) else None
@@ -343,6 +400,10 @@ def series_classes(case, x, r=1, kx="x", ky="y"):
         cls.add("narrow-y")
     if case.get("x_none"):
         cls.add("construction:x=None")
+    if case.get("container") and kx == "x":
+        cls.add("container:strided-view")
+        shared = case["container"] != "every-second" and table_of(case) is not None
+        cls.add("container:" + case["container"] + ("(shared x,y table)" if shared else "(separate buffers)"))
     if case.get("xint"):
         cls.add("int-x")
     if case.get("yint"):
@@ -386,7 +447,7 @@ def identity_body(ctx, case):
     xa, ya = inputs(case)
     cls = series_classes(case, x)
     if case["facade"]:
-        w = Weaver(xa, ya)
+        w = make_weaver(case)
         w.repeat(1)
         check_same("Weaver.repeat(1).get()", x, y, w.get())
         check_same("Weaver.repeat(1).get_reference()", x, y, w.get_reference())
@@ -411,7 +472,7 @@ def composition_body(ctx, case):
     xa, ya = inputs(case)
     cls = series_classes(case, x, a * b) | {r_class(a * b), "a=1" if a == 1 else "b=1" if b == 1 else "a,b>=2"}
     if case["facade"]:
-        w2, w3 = Weaver(xa, ya), Weaver(*inputs(case))
+        w2, w3 = make_weaver(case), make_weaver(case)
         w2.repeat(a)
         w2.repeat(b)
         w3.repeat(a * b)
@@ -432,7 +493,7 @@ def composition_body(ctx, case):
         X2, Y2 = (as_float_array(f"{name}: {k}", v, a * b * n) for k, v in zip("xy", two))
         one = pair("repeat a*b", one)
         X3, Y3 = (as_float_array(f"repeat a*b: {k}", v, a * b * n) for k, v in zip("xy", one))
-        if not np.array_equal(bits(Y2), bits(Y3)):
+        if not np.array_equal(Y2, Y3):
             k = first_diff(Y2, Y3)
             raise Violation(f"{name}: y[{k}] = {Y2[k]!r} but repeating {a * b} times gives {Y3[k]!r}")
         scale = float(np.max(np.abs(X3)))
@@ -546,7 +607,7 @@ def recall_body(ctx, case):
     def call(yy, rr, tag):
         xa, ya = inputs(dict(case, y=yy))
         if case["facade"]:
-            w = Weaver(xa, ya)
+            w = make_weaver(dict(case, y=yy))
             w.repeat(rr)
             res, ref = w.get(), w.get_reference()
             check_extension(f"{tag}: Weaver.repeat({rr}).get()", x, yy, rr, res)
